@@ -421,6 +421,27 @@ func (e *Engine) mergeVal(g string, a, b Val, sa, sb *State, what string) Val {
 			return out
 		}
 	}
+	if x, ok := a.(ArrPtrV); ok {
+		if y, ok := b.(ArrPtrV); ok && x.N == y.N {
+			if x.Arr == y.Arr {
+				return x
+			}
+			// pointers to two different fixed-size arrays (argument lists and composite literals built on two paths):
+			// the merged pointer denotes an array whose contents are those of the one or the other
+			if e.mergeOut != nil && x.Arr != nil && y.Arr != nil && types.Identical(x.Arr.Elem, y.Arr.Elem) {
+				ma, mb := e.arr(sa, x.Arr), e.arr(sb, y.Arr)
+				e.freshMerges++
+				e.ncell++
+				na := &Arr{Elem: x.Arr.Elem, Leaves: x.Arr.Leaves, id: e.ncell, Name: x.Arr.Name + "|" + y.Arr.Name}
+				m := map[string]string{}
+				for k := range ma {
+					m[k] = e.share(ite(g, ma[k], mb[k]), e.arrSort(leafSort(na, k)))
+				}
+				e.mergeOut.arrs[na] = m
+				return ArrPtrV{Arr: na, N: x.N}
+			}
+		}
+	}
 	panic(mergeFail{why: fmt.Sprintf("cannot merge %T with %T (%s)", a, b, what)})
 }
 
